@@ -113,7 +113,8 @@ class MediaQuery(css_parser.util._NewBase):  # css_parser.util.Base):
 
         def expression(): return Sequence(PreDef.char(name='expression', char='('),
                                           Prod(name='media_feature',
-                                               match=lambda t, v: t == PreDef.types.IDENT
+                                               match=lambda t, v: t == PreDef.types.IDENT,
+                                               toSeq=lambda t, tokens: (t[0], normalize(t[1]))
                                                ),
                                           Sequence(PreDef.char(name='colon', char=':'),
                                                    css_parser.css.value.MediaQueryValueProd(self),
